@@ -57,6 +57,8 @@ Record guard := Guard {
 }.
 
 Definition unchecked : guard := Guard PAlways [] false.
+(* a constructor parameter without property setter: every assignment raises AttributeError *)
+Definition read_only : guard := Guard PIsNumber [RaiseUnlessLen 0] true.
 
 Definition pre_fires (p : precond) (x : value) : bool :=
   match p, x with
@@ -278,7 +280,7 @@ Definition check_side (g : guard) (d : drange) (k : vclass) : bool :=
               let D := doc_hls lo hi in
               hls_inside G D && hls_inside D G &&
               match g_pre g with
-              | PTruthy => in_range d (VNum 0)        (* `if x and ...` lets 0 through unchecked *)
+              | PTruthy => in_range d (VNum 0) && negb (g_else_reject g)   (* `if x and ...` lets 0 through unchecked *)
               | _ => true
               end
           end
@@ -345,8 +347,13 @@ Definition none_ok (gt : guard_table) (r : docrow) : bool :=
   end.
 
 (* a field whose source has a range check but which the literal table does not know *)
+Definition is_read_only (g : guard) : bool :=
+  match g_pre g, g_clauses g, g_else_reject g with
+  | PIsNumber, [RaiseUnlessLen O], true => true
+  | _, _, _ => false
+  end.
 Definition trivial_guard (g : guard) : bool :=
-  match g_clauses g with [] => negb (g_else_reject g) | _ => false end.
+  is_read_only g || match g_clauses g with [] => negb (g_else_reject g) | _ => false end.
 Definition unlisted_guards (docs : list docrow) (gt : guard_table) : list fkey :=
   map fst (filter (fun e => match e with (f, (gc, gs)) =>
                      negb (trivial_guard gc && trivial_guard gs) &&
